@@ -96,6 +96,7 @@ func (r *returnsRunner) execute(cmd *cobra.Command, args []string) error {
 		AccountFilter:   predicate.ByName[*model.Account](r.accounts.Regex()),
 		CommodityFilter: predicate.ByName[*model.Commodity](r.commodities.Regex()),
 	}
+	j.Days(partition.EndDates())
 	err = j.Build().Process(
 		journal.ComputePrices(valuation),
 		check.Check(),
